@@ -12,6 +12,7 @@ import (
 	"strings"
 	"time"
 
+	"github.com/huderlem/poryscript/ast"
 	"github.com/huderlem/poryscript/emitter"
 	"github.com/huderlem/poryscript/lexer"
 	"github.com/huderlem/poryscript/parser"
@@ -147,4 +148,16 @@ func writeAutoVarConfig(dir string, av map[string]AutoV) (string, error) {
 	b, _ := json.Marshal(cc{A: av})
 	p := filepath.Join(dir, "cc.json")
 	return p, os.WriteFile(p, b, 0o644)
+}
+
+// emitOnly runs the real emitter on an AST produced by the real parser.
+func emitOnly(prog *ast.Program, optimize bool) (res Result) {
+	defer func() {
+		if r := recover(); r != nil {
+			res.Panic = fmt.Sprintf("%v\n%s", r, debug.Stack())
+		}
+	}()
+	out, err := emitter.New(prog, optimize, false, "").Emit()
+	res.Out, res.Err = out, err
+	return
 }
